@@ -16,7 +16,7 @@ import z3
 from vt.sqlsmt.sym import simp as _simp
 
 from vt.sqlsmt import harness as H
-from vt.sqlsmt.sym import FALSE, TRUE, Unsupported, same
+from vt.sqlsmt.sym import FALSE, TRUE, Unsupported, same, same_dc
 
 TIMEOUT_MS = 20000
 
@@ -24,7 +24,7 @@ TIMEOUT_MS = 20000
 def rows_differ(T, O, cols):
     """Bool: the present rows of T and O differ as sets over `cols` (+ duplicates in T by all cols ignored)"""
     def eq(a, b):
-        return z3.And(*[same(a.cols[c], b.cols[c]) for c in cols]) if cols else TRUE
+        return z3.And(*[same_dc(a.cols[c], b.cols[c]) for c in cols]) if cols else TRUE
     miss_t = [z3.And(r.present, z3.Not(z3.Or(*[z3.And(o.present, eq(r, o)) for o in O.rows]) if O.rows else FALSE)) for r in T.rows]
     miss_o = [z3.And(o.present, z3.Not(z3.Or(*[z3.And(r.present, eq(r, o)) for r in T.rows]) if T.rows else FALSE)) for o in O.rows]
     return z3.Or(*(miss_t + miss_o)) if (miss_t or miss_o) else FALSE
@@ -167,6 +167,9 @@ UF_IMPL = {
     "uf_power": lambda x, y: _real(math.pow(float(x), float(y))),
     "uf_log": lambda b, x: _real(math.log(float(x), float(b))) if x > 0 and b > 0 and b != 1 else None,
     "uf_int_to_str": lambda i: z3.StringVal(str(i)),
+    "uf_sq": lambda x: _real(fractions.Fraction(x) ** 2),
+    "uf_var_pop": lambda n, s_, q: _real(fractions.Fraction(q) / n - (fractions.Fraction(s_) / n) ** 2) if n > 0 else None,
+    "uf_var_samp": lambda n, s_, q: _real((fractions.Fraction(q) - fractions.Fraction(s_) ** 2 / n) / (n - 1)) if n > 1 else None,
 }
 
 
@@ -248,6 +251,11 @@ def expected_rows(case, O, subs):
         d = {}
         for c, ty, role in O.comps:
             sv = r.cols[c]
+            if sv.dc is not None:
+                dcv = ceval(sv.dc, subs, memo)
+                if dcv is None or z3.is_true(dcv):
+                    d[c] = ANY
+                    continue
             if sv.kind == "null":
                 d[c] = None
                 continue
@@ -292,7 +300,12 @@ def frames(case, subs):
     return cin, dfs
 
 
+ANY = "<any>"
+
+
 def _close(a, b):
+    if a == ANY or b == ANY:
+        return True
     if a is None or b is None:
         return a is None and b is None
     if isinstance(a, bool) or isinstance(b, bool):
